@@ -19,7 +19,19 @@ CONFIG = dict(
              'levels deep / half under blacklisted prefixes, steps touching every k-th file for k = 2^j, 2^j+-1, range deletions, mass additions, mode '
              'changes, files turning into submodule entries, strict submodule mode with a complete .gitmodules; scale-chain = histories of 1025 commits '
              '(thorough 10000) linear and as a DAG with forks and merges; scale-forks = up to 1025 (thorough 4097) branches alive after one Fork, merge '
-             'commits with 33 .. 65 (thorough 257) parents consumed on every parent\'s branch and refused elsewhere. Non-trivial = at least one accepted '
+             'commits with 33 .. 65 (thorough 257) parents consumed on every parent\'s branch and refused elsewhere. Round 3: prefixes = blacklists of 2..6 '
+             'path prefixes that are nested (P, P+Q, P+Q+R), overlapping, duplicated, empty, not terminated by a slash or whole file names, in configured / '
+             'sorted / reverse order, over trees whose paths sort directly before, inside, between and behind every prefix (P+"a.go", P+"proto.go", '
+             'P+"zz.go", stem+".go", stem+"0.go"), linear and forked histories, a third of them on an item that was configured with ANOTHER list first '
+             '(Configure, Initialize, Configure, Initialize); strictsub = FailOnMissingSubmodules on, .gitmodules listing exactly the submodules of '
+             'every commit, submodules registered / bumped / removed in successive commits at paths that sort before ".gitmodules" (.ci/tools, .build/x, '
+             '+ext/y, -vendored, .gitmodule, .a) and behind it (.gitmodulesx, .hidden/s, libs/a, src/third, sub, zlib), under whitelist regexps and '
+             'blacklists that drop the ".gitmodules" change while submodule entries pass, with Initialize in the middle of a replay; an error or panic of '
+             'BlobCache.Consume is a violation whenever integral_b holds of the step (extracted; C20_cache_no_refusal_strict): every referenced object is '
+             'in the store or is a submodule entry that is registered in the .gitmodules of THAT commit (or the mode is lenient); reuse = two or three '
+             'unrelated histories replayed one after the other on the same items with Initialize in between (also on a fork, twice in a row, after a '
+             'refused attempt without Initialize): the first commit of the next history must be accepted and listed as a first commit (finding F24, '
+             'repaired). Non-trivial = at least one accepted '
              'step on a branch holding a previous tree that reports at least one change; distinct = distinct (configuration, commits, operation list).',
         exhaustive_note='all 1024 ordered pairs of the 32 trees over the slots {a.go: absent, 2 contents, executable, 2 submodule hashes, directory with 1 or 2 '
                         'files} x {c.py: absent, 2 contents, symlink}, replayed as first commit + diff step, under each of the pair configurations',
@@ -44,7 +56,9 @@ CONFIG = dict(
         level_text='Partial. Proved in Coq for all inputs (hercules\'s own logic): the parent check refuses exactly the commits whose parents do not include the branch\'s previous commit, and over every '
                    'replay an accepted commit is diffed against the tree of one of its parents; the first commit lists exactly the passing files; filterDiffs applied to a '
                    'correct tree difference yields a correct difference of the restricted file sets whenever no language verdict flips across a modification; '
-                   'BlobCache returns every referenced blob with its exact bytes and empty placeholders for absent objects, in every reachable state; branches are private. '
+                   'BlobCache returns every referenced blob with its exact bytes and empty placeholders for absent objects, in every reachable state, and never refuses a '
+                   'change list whose blobs are all available in the environment of the commit (both submodule modes: C20_cache_no_refusal_strict); a re-initialised '
+                   'TreeDiff accepts any commit as a first commit (C20_initialize_never_refuses, finding F24 repaired by 3598ee8); branches are private. '
                    'The full statement about languages is refuted (C20_language_flip_refuted, open finding "language-flip"). go-git\'s DiffTree is validated per replayed '
                    'step by a validator proved sound, not verified.',
         level_note='partial: (1) object.DiffTree is third-party and only translation-validated on the replayed cases; (2) the language clause of the property is false of the '
